@@ -6,9 +6,15 @@
 // from the documented layout (scalars little-endian fixed width; string/buffer
 // = u16 length + bytes; vector/map = u16 count + elements; pair/tuple/user type
 // = the fields).  Every input the real readers see is an exactly sized heap
-// copy (ASan).  For truncated inputs of the bounded storage reader the decoded
-// value must be a function of the supplied bytes only (reference: the missing
-// bytes do not exist, i.e. read as zero).
+// copy (ASan).  For TRUNCATED inputs (an input that the strict reference decoder
+// written from the documented layout cannot decode: bytes missing, hostile counts)
+// the property states one thing only: "never reads beyond the bytes supplied,
+// however truncated".  The oracle for them is therefore: no access outside the
+// exactly sized block (ASan), the reader position stays within [0, size of the
+// input], the decode terminates.  The compared result of such a decode is the
+// canonical word `truncated-ok`, NOT the decoded value (round 3c correction: the
+// value a truncated input decodes to - zero-extended today - is not fixed by the
+// property; what today's code yields is recorded in tags only).
 #include "C09/common.h"
 
 // ------------------------------------------------------------------ reference layout
@@ -380,6 +386,13 @@ static void op_decode(char st, const std::string &desc, const std::string &inhex
     if (!dt_of(desc, dt)) { o.result = "bad-op"; o.fail("unparsable op"); return; }
     if (!S.has(desc)) { o.result = "unsupported"; o.fail("type not in the harness family: " + desc); return; }
     bytes input = unhex(inhex);
+    // complete = the strict decoder of the documented layout accepts the input (trailing bytes allowed)
+    bool complete;
+    {
+        DV sv;
+        size_t spos = 0;
+        complete = ref_dec(dt, input.data(), input.size(), spos, false, sv);
+    }
     // reference: both readers are bounded (missing bytes read as zero)
     DV rv;
     size_t rpos = 0;
@@ -389,15 +402,24 @@ static void op_decode(char st, const std::string &desc, const std::string &inhex
     size_t consumed = 0;
     std::vector<DV> back = S.decode_seq({desc}, eb.p, eb.n, consumed);
     std::string got = show(dt, back[0]);
-    o.result = got + " " + std::to_string(consumed);
     tag_value(dt, back[0], o);
+    size_t nodes = dv_nodes(dt, back[0]);
+    if (nodes > 16 * (input.size() + 1)) tag1(o, "hostile-count");
+    // cost model of today's code: nodes(v) <= blank(T) * (1 + 65535 * consumed).  Not a clause of the property: a tag.
+    bool over = nodes > dt_blank(dt) * (1 + 65535 * consumed);
+    if (!complete)
     {
-        // cost model: what a decode can allocate is bounded by the bytes it consumed, nodes(v) <= blank(T) * (1 + 65535 * consumed)
-        // (a count field of 2 bytes announces at most 65535 elements, and an exhausted input announces none)
-        size_t nodes = dv_nodes(dt, back[0]);
-        if (nodes > dt_blank(dt) * (1 + 65535 * consumed)) o.fail("decoded value has " + std::to_string(nodes) + " nodes, more than blank(T) * (1 + 65535 * consumed bytes)");
-        if (nodes > 16 * (input.size() + 1)) tag1(o, "hostile-count");
+        // truncated / hostile input: ASan on the exactly sized block, position in range, termination - nothing else
+        o.result = "truncated-ok";
+        tag1(o, "truncated");
+        if (consumed > input.size()) o.fail("reader position beyond the supplied bytes");
+        if (over) tag1(o, "truncated-alloc-over-cost-model");
+        tag1(o, got == show(dt, rv) && consumed == rpos ? "truncated-value-zero-extended" : "truncated-value-other");
+        if (expect) { o.tag("golden"); o.fail("recorded encoding is not a complete encoding"); }
+        return;
     }
+    o.result = got + " " + std::to_string(consumed);
+    if (over) o.fail("decoded value has " + std::to_string(nodes) + " nodes, more than blank(T) * (1 + 65535 * consumed bytes)");
     if (got != show(dt, rv) || consumed != rpos) o.fail("decoded value/position differs from the documented layout");
     if (expect)
     {
@@ -447,13 +469,30 @@ static void op_trunc(char st, const std::string &desc, const std::string &val, c
         size_t rpos = 0;
         ref_dec(dt, pre.data(), pre.size(), rpos, true, rv);
         std::string rr = show(dt, rv);
+        bool complete;
+        {
+            DV sv;
+            size_t spos = 0;
+            complete = ref_dec(dt, pre.data(), pre.size(), spos, false, sv);
+        }
         if (idx) o.result += "|";
-        o.result += r1 + "@" + std::to_string(c1);
-        if (r1 != r2 || c1 != c2) o.fail("truncated at " + std::to_string(k) + ": two decodes of the same bytes differ (stale memory in the result)");
-        else if (r1 != rr) o.fail("truncated at " + std::to_string(k) + ": decoded value is not a function of the supplied bytes (expected " + (rr.size() < 80 ? rr : rr.substr(0, 80) + "...") + ", got " + (r1.size() < 80 ? r1 : r1.substr(0, 80) + "...") + ")");
-        if (c1 > k) o.fail("reader position beyond the supplied bytes");
-        if (k == enc.size() && r1 != val) o.fail("full input does not decode to v");
-        if (k < enc.size()) tag1(o, "truncated");
+        if (c1 > k || c2 > k) o.fail("reader position beyond the supplied bytes");
+        if (!complete)
+        {
+            // truncated: no access outside the block (ASan), position in range, termination; the value is not compared
+            o.result += "truncated-ok";
+            tag1(o, "truncated");
+            if (r1 != r2 || c1 != c2) tag1(o, "truncated-two-decodes-differ");
+            tag1(o, r1 == rr && c1 == rpos ? "truncated-value-zero-extended" : "truncated-value-other");
+            if (k == enc.size()) o.fail("the encoding of v is not a complete encoding of the documented layout");
+        }
+        else
+        {
+            o.result += r1 + "@" + std::to_string(c1);
+            if (r1 != r2 || c1 != c2) o.fail("complete input at " + std::to_string(k) + ": two decodes of the same bytes differ (stale memory in the result)");
+            else if (r1 != rr) o.fail("complete input at " + std::to_string(k) + ": decoded value differs from the documented layout (expected " + (rr.size() < 80 ? rr : rr.substr(0, 80) + "...") + ", got " + (r1.size() < 80 ? r1 : r1.substr(0, 80) + "...") + ")");
+            if (k == enc.size() && r1 != val) o.fail("full input does not decode to v");
+        }
         if (k < enc.size() && k > 0 && dt.k == DT::VEC && k == 1) tag1(o, "count-half-read");
     }
 }
@@ -518,11 +557,21 @@ static void op_capped_trunc(const std::string &caps, const std::string &payhex, 
     DV rv;
     ref_dec(dt, in.data(), in.size(), pos, true, rv);
     std::string gs = show(dt, co.val);
-    o.result = "\"" + (co.got.empty() ? "" : hex(co.got)) + "\" " + gs + " " + std::to_string(co.consumed);
-    if (co.got != eg) o.fail("capped load on a truncated input: stored bytes are not the available bytes zero-filled");
     if (!co.dst_clean) o.fail("capped load wrote outside the destination");
-    if (gs != show(dt, rv) || co.consumed != pos) o.fail("value after a capped load on a truncated input differs from the reference (missing bytes are zero)");
     if (co.consumed > k) o.fail("archive reader position beyond the supplied bytes");
+    if (k < full.size())
+    {
+        // truncated: no access outside input / destination, position in range, termination; values are not compared
+        o.result = "truncated-ok";
+        tag1(o, "truncated");
+        tag1(o, co.got == eg && gs == show(dt, rv) && co.consumed == pos ? "truncated-value-zero-extended" : "truncated-value-other");
+    }
+    else
+    {
+        o.result = "\"" + (co.got.empty() ? "" : hex(co.got)) + "\" " + gs + " " + std::to_string(co.consumed);
+        if (co.got != eg) o.fail("capped load on a complete input: stored bytes are not the first min(cap,len) bytes of the payload");
+        if (gs != show(dt, rv) || co.consumed != pos) o.fail("value after a capped load on a complete input differs from the reference");
+    }
     o.tag("capped-truncated");
     if (len > cap && k < full.size()) tag1(o, "skip-clamped");
 }
@@ -697,18 +746,30 @@ static void op_loads(const std::string &datahex, const std::string &nss, out &o)
     size_t avail = 0;
     std::vector<std::string> got = s_loads(std::string(d.begin(), d.end()), ns, avail);
     size_t pos = 0;
+    bool cutin = false, same = true; // cutin: a loads() asked for more bytes than were left
     for (size_t i = 0; i < ns.size(); i++)
     {
         std::string e(ns[i], '\0');
         size_t len = std::min(ns[i], d.size() - pos);
         if (len) memcpy(&e[0], d.data() + pos, len);
         pos += len;
-        if (got[i] != e) o.fail("loads(" + std::to_string(ns[i]) + ") is not the available prefix padded with zeros");
-        if (len < ns[i]) tag1(o, "truncated");
+        if (len < ns[i]) { cutin = true; tag1(o, "truncated"); }
+        // from the first short read on the property only says "never reads beyond the bytes supplied": not compared
+        if (cutin) { o.result += (i ? "|truncated-ok" : "truncated-ok"); if (got[i] != e) same = false; continue; }
+        if (got[i] != e) o.fail("loads(" + std::to_string(ns[i]) + ") on a storage that holds the bytes does not return them");
         o.result += (i ? "|" : "") + hex(got[i]);
     }
-    o.result += " " + std::to_string(avail);
-    if (avail != d.size() - pos) o.fail("storage cursor differs from the reference");
+    if (cutin)
+    {
+        o.result += " truncated-ok";
+        if (avail > d.size()) o.fail("storage cursor outside [0, size of the input]");
+        tag1(o, same && avail == d.size() - pos ? "truncated-value-zero-extended" : "truncated-value-other");
+    }
+    else
+    {
+        o.result += " " + std::to_string(avail);
+        if (avail != d.size() - pos) o.fail("storage cursor differs from the reference");
+    }
     o.tag("storage-loads");
 }
 
@@ -725,8 +786,16 @@ static void op_trunc_a(const std::string &desc, const std::string &val, const st
     exact_buf eb(pre);
     size_t consumed = 0;
     DV back = a_decode_raw(desc, eb.p, eb.n, consumed); // ASan stops here when a byte outside the input is read
-    o.result = show(dt, back) + "@" + std::to_string(consumed);
     if (consumed > k) o.fail("archive reader position beyond the supplied bytes");
+    if (k < enc.size())
+    {
+        o.result = "truncated-ok"; // the value a truncated input decodes to is not compared
+        tag1(o, "truncated");
+    }
+    else
+    {
+        o.result = show(dt, back) + "@" + std::to_string(consumed);
+    }
     o.tag("truncated-archive-reader");
 }
 
@@ -769,26 +838,29 @@ static void op_into(char st, const std::string &desc, const std::string &dests, 
     size_t consumed = 0;
     DV back = S.decode_into(desc, dest, eb.p, eb.n, consumed);
     std::string got = show(dt, back);
-    o.result = hex(enc) + " " + got + " " + std::to_string(consumed);
     tag1(o, dest_nonempty(dt, dest) ? "dest-nonempty" : "dest-blank");
     if (!cut || input.size() >= enc.size())
     {
+        o.result = hex(enc) + " " + got + " " + std::to_string(consumed);
         if (got != val) o.fail("deserialize into an existing object: deserialize(serialize(v)) != v for " + desc + " (destination held " + (dests.size() < 60 ? dests : dests.substr(0, 60) + "...") + ")");
         if (consumed != enc.size()) o.fail("consumed " + std::to_string(consumed) + " bytes, serialize produced " + std::to_string(enc.size()));
     }
     else
     {
+        // truncated: no access outside the block (ASan), position in range, termination; the value is not compared
+        o.result = hex(enc) + " truncated-ok";
         tag1(o, "truncated");
         if (consumed > input.size()) o.fail("reader position beyond the supplied bytes");
         exact_buf e2(input);
         size_t c2 = 0;
-        if (show(dt, S.decode_into(desc, dest, e2.p, e2.n, c2)) != got || c2 != consumed) o.fail("two decodes of the same bytes into the same object differ");
+        if (show(dt, S.decode_into(desc, dest, e2.p, e2.n, c2)) != got || c2 != consumed) tag1(o, "truncated-two-decodes-differ");
+        if (c2 > input.size()) o.fail("reader position beyond the supplied bytes");
         if (st == 'a')
         {
             DV rv;
             size_t rpos = 0;
             ref_dec(dt, input.data(), input.size(), rpos, true, rv);
-            if (got != show(dt, rv) || consumed != rpos) o.fail("truncated decode into an existing object is not the function of the supplied bytes the reference computes (missing bytes are zero)");
+            tag1(o, got == show(dt, rv) && consumed == rpos ? "truncated-value-zero-extended" : "truncated-value-other");
         }
     }
 }
@@ -812,16 +884,31 @@ static void op_tseq(char st, const std::vector<std::string> &descs, const std::v
     size_t consumed = 0;
     std::vector<DV> back = S.decode_seq(descs, eb.p, eb.n, consumed);
     size_t rpos = 0;
+    bool cutin = k < enc.size(), same = true;
     for (size_t i = 0; i < descs.size(); i++)
     {
         std::string got = show(dts[i], back[i]);
-        o.result += (i ? " " : "") + got;
+        if (!cutin) o.result += (i ? " " : "") + got;
         DV rv;
         ref_dec(dts[i], pre.data(), pre.size(), rpos, true, rv);
-        if (got != show(dts[i], rv)) o.fail("value " + std::to_string(i) + " read by a reader that already hit the end of its input differs from the reference (missing bytes are zero)");
+        if (got != show(dts[i], rv))
+        {
+            same = false;
+            if (!cutin) o.fail("value " + std::to_string(i) + " of a complete sequence differs from the reference decode of the documented layout");
+        }
     }
-    o.result += " " + std::to_string(consumed);
-    if (consumed != rpos || consumed > k) o.fail("reader position differs from the reference / is beyond the supplied bytes");
+    if (consumed > k) o.fail("reader position is beyond the supplied bytes");
+    if (cutin)
+    {
+        // truncated: no access outside the block (ASan), position in range, termination; the values are not compared
+        o.result = "truncated-ok";
+        tag1(o, same && consumed == rpos ? "truncated-value-zero-extended" : "truncated-value-other");
+    }
+    else
+    {
+        o.result += " " + std::to_string(consumed);
+        if (consumed != rpos) o.fail("reader position differs from the reference");
+    }
     o.tag("reader-reused-after-end");
     if (k < enc.size()) tag1(o, "truncated");
 }
